@@ -680,4 +680,96 @@ Proof.
   intros I s' frs rq H. exact (field_values _ _ _ _ _ _ I H).
 Qed.
 
+(* ---- several structs *)
+
+Lemma fails_step (s s1 : store) pfx pf : step_rel s s1 -> fails s1 pfx pf = fails s pfx pf.
+Proof. intros H. unfold fails. rewrite (value_of_step _ _ _ H). reflexivity. Qed.
+
+(* the composed Apply of NewStore reports an error iff some struct's Apply does, i.e. iff some tagged field
+   of some struct fails (its own name has no value, or its own decoder refuses it) - judged against the
+   store the loop starts with: applying earlier structs changes no secret's value.  And the struct it
+   stops at is the FIRST such struct; everything before it was applied without error. *)
+Lemma apply_structs_error_iff : forall (l : list (bstr * list pfield)) (s : store), Inv s ->
+  let '(s', frss, rq, e) := apply_structs jdec unm_ok ans now_s s l in
+  step_rel s s' /\
+  (e <> None <-> exists pfx pfs pf, In (pfx, pfs) l /\ In pf pfs /\ fails s pfx pf = true) /\
+  (forall k, e = Some k ->
+     length frss = S k /\
+     (exists pfx pfs pf, nth_error l k = Some (pfx, pfs) /\ In pf pfs /\ fails s pfx pf = true) /\
+     (forall j pfx pfs pf, j < k -> nth_error l j = Some (pfx, pfs) -> In pf pfs -> fails s pfx pf = false)) /\
+  (e = None -> length frss = length l).
+Proof.
+  induction l as [|[pfx pfs] r IH]; intros s I; cbn [apply_structs].
+  - split; [apply step_refl; exact I|]. split.
+    + split; [congruence|]. intros (? & ? & ? & [] & _).
+    + split; [discriminate|reflexivity].
+  - destruct (apply jdec unm_ok ans now_s pfx s pfs) as [[s1 frs] rq] eqn:Ha.
+    destruct (apply_spec _ _ _ _ _ _ I Ha) as (St & _).
+    destruct (errors_joined _ _ _ _ _ _ I Ha) as (_ & _ & Hrep).
+    destruct (reported frs) as [|x xs] eqn:R.
+    + (* this struct is clean: continue *)
+      assert (Clean : forall pf, In pf pfs -> fails s pfx pf = false) by (apply Hrep; reflexivity).
+      assert (I1 : Inv s1) by (destruct St as (I1 & _); exact I1).
+      specialize (IH s1 I1). destruct (apply_structs jdec unm_ok ans now_s s1 r) as [[[s2 rest] rq2] e].
+      destruct IH as (St2 & Hiff & Hk & Hn).
+      split; [eapply step_trans; eassumption|]. split; [|split].
+      * split.
+        -- intros He. assert (He' : e <> None) by (destruct e; [discriminate|exact He]).
+           destruct (proj1 Hiff He') as (p & q & pf & Hin & Hpf & Hf). exists p, q, pf.
+           split; [right; exact Hin|]. split; [exact Hpf|]. rewrite <- (fails_step _ _ _ _ St). exact Hf.
+        -- intros (p & q & pf & [E|Hin] & Hpf & Hf).
+           ++ injection E as <- <-. rewrite (Clean pf Hpf) in Hf. discriminate.
+           ++ assert (He' : e <> None).
+              { apply (proj2 Hiff). exists p, q, pf. split; [exact Hin|]. split; [exact Hpf|].
+                rewrite (fails_step _ _ _ _ St). exact Hf. }
+              destruct e; [discriminate|congruence].
+      * intros k Hk'. destruct e as [k0|]; [|discriminate]. cbn [option_map] in Hk'. injection Hk' as <-.
+        destruct (Hk k0 eq_refl) as (L & (p & q & pf & Hn1 & Hpf & Hf) & Before).
+        split; [cbn [length]; rewrite L; reflexivity|]. split.
+        -- exists p, q, pf. split; [exact Hn1|]. split; [exact Hpf|]. rewrite <- (fails_step _ _ _ _ St). exact Hf.
+        -- intros j p' q' pf' Hj Hnth Hin. destruct j as [|j'].
+           ++ cbn [nth_error] in Hnth. injection Hnth as <- <-. apply Clean. exact Hin.
+           ++ cbn [nth_error] in Hnth. rewrite <- (fails_step _ _ _ _ St). eapply Before; [|exact Hnth|exact Hin]. lia.
+      * intros He. destruct e; [discriminate|]. cbn [length]. rewrite (Hn eq_refl). reflexivity.
+    + (* this struct reports: the loop ends here *)
+      assert (Bad : exists pf, In pf pfs /\ fails s pfx pf = true).
+      { destruct (existsb (fails s pfx) pfs) eqn:Ex.
+        - apply existsb_exists in Ex. exact Ex.
+        - exfalso. assert (H : x :: xs = []); [|discriminate H]. apply Hrep. intros pf Hpf.
+          destruct (fails s pfx pf) eqn:F; [|reflexivity].
+          assert (existsb (fails s pfx) pfs = true) by (apply existsb_exists; eauto). congruence. }
+      destruct Bad as (pf & Hpf & Hf).
+      split; [exact St|]. split; [|split].
+      * split; [intros _|discriminate]. exists pfx, pfs, pf. split; [left; reflexivity|]. auto.
+      * intros k Hk. injection Hk as <-. split; [reflexivity|]. split.
+        -- exists pfx, pfs, pf. split; [reflexivity|]. auto.
+        -- intros j ? ? ? Hj. inversion Hj.
+      * discriminate.
+Qed.
+
+(* every struct that is applied gets the results of ITS OWN (prefix, fields): the per-field specification
+   holds for it with respect to the store it was handed, in which every secret has the value it had when
+   the loop started - whatever the other entries are, also when they are values of the same struct type *)
+Lemma apply_structs_each : forall (l : list (bstr * list pfield)) (s : store), Inv s ->
+  let '(s', frss, rq, e) := apply_structs jdec unm_ok ans now_s s l in
+  forall k pfx pfs frs, nth_error l k = Some (pfx, pfs) -> nth_error frss k = Some frs ->
+    exists sk sk', (forall n, value_of sk n = value_of s n) /\ Forall2 (field_spec sk sk' pfx) pfs frs.
+Proof.
+  induction l as [|[pfx pfs] r IH]; intros s I; cbn [apply_structs].
+  - intros k ? ? ? H. destruct k; discriminate H.
+  - destruct (apply jdec unm_ok ans now_s pfx s pfs) as [[s1 frs] rq] eqn:Ha.
+    destruct (apply_spec _ _ _ _ _ _ I Ha) as (St & HF & _).
+    assert (Here : forall k p q f, nth_error ((pfx, pfs) :: r) k = Some (p, q) -> nth_error [frs] k = Some f ->
+              exists sk sk', (forall n, value_of sk n = value_of s n) /\ Forall2 (field_spec sk sk' p) q f).
+    { intros k p q f H1 H2. destruct k as [|k]; [|destruct k; discriminate H2].
+      cbn [nth_error] in H1, H2. injection H1 as <- <-. injection H2 as <-. exists s, s1. split; [reflexivity|exact HF]. }
+    destruct (reported frs) as [|x xs]; [|exact Here].
+    assert (I1 : Inv s1) by (destruct St as (I1 & _); exact I1).
+    specialize (IH s1 I1). destruct (apply_structs jdec unm_ok ans now_s s1 r) as [[[s2 rest] rq2] e].
+    intros k p q f H1 H2. destruct k as [|k].
+    + apply (Here 0 p q f H1). exact H2.
+    + cbn [nth_error] in H1, H2. destruct (IH k p q f H1 H2) as (sk & sk' & Hv & HF2).
+      exists sk, sk'. split; [|exact HF2]. intros n. rewrite Hv. apply value_of_step. exact St.
+Qed.
+
 End ApplyProofs.
